@@ -550,4 +550,30 @@ def explore (D : Defects) (st : Store) : Nat → List Plan → List Plan
     let next := (ps.flatMap (steps D st)).take 40
     ps ++ explore D st fuel next
 
+/-! ## Statistics and the choice among equivalent plans
+
+The cost model reads statistics (sql/planner/model.rs, schema/stats.rs); `evalPlan` does not take them. -/
+
+/-- what ANALYZE stores per table: row count and number of distinct values of the first index column -/
+structure Stats where
+  rowCount : List Nat := []
+  ndv : List Nat := []
+  deriving Repr, Inhabited
+
+/-- a cost in the spirit of DefaultCostModel: scans cost their rows (an index scan rows / ndv), filters and
+    projections their input, joins the product of their inputs -/
+def cost (s : Stats) : Plan → Nat
+  | .scan t => s.rowCount.getD t 1000
+  | .indexScan t _ _ _ _ => s.rowCount.getD t 1000 / (s.ndv.getD t 100 + 1) + 3
+  | .filter _ c => cost s c + cost s c / 10 + 1
+  | .project _ c => cost s c + cost s c / 10 + 1
+  | .join _ _ l r => cost s l + cost s r + cost s l * cost s r / 10 + 1
+
+/-- the cheapest candidate under the given statistics (the first one among equals, as the optimizer keeps the incumbent) -/
+def choose (s : Stats) : List Plan → Option Plan
+  | [] => none
+  | c :: cs => match choose s cs with
+    | none => some c
+    | some b => if cost s b < cost s c then some b else some c
+
 end AxVerif.Plan
